@@ -141,11 +141,15 @@ impl Generator {
             load_stats.files, load_stats.stat_time
         );
 
+        #[cfg(kaspar030_laze_verif)]
+        crate::verif_oracle::fault("after_load");
         std::fs::create_dir_all(&self.build_dir)?;
         let mut ninja_build_file = std::io::BufWriter::new(std::fs::File::create(
             get_ninja_build_file(&self.build_dir, &self.mode).as_path(),
         )?);
 
+        #[cfg(kaspar030_laze_verif)]
+        crate::verif_oracle::fault("after_ninja_created");
         ninja_build_file
             .write_all(format!("builddir = {}\n", self.build_dir.clone()).as_bytes())?;
 
@@ -273,6 +277,8 @@ impl Generator {
             })
             .collect::<Result<Vec<(BuildInfo, IndexSet<String>)>, anyhow::Error>>()?;
 
+        #[cfg(kaspar030_laze_verif)]
+        crate::verif_oracle::fault("after_configure");
         let mut combined_ninja_entries = IndexSet::new();
         let builds = builds
             .drain(..)
@@ -286,6 +292,8 @@ impl Generator {
             ninja_build_file.write_all(entry.as_bytes())?;
         }
 
+        #[cfg(kaspar030_laze_verif)]
+        crate::verif_oracle::fault("after_entries_written");
         let num_built = builds.len();
         println!(
             "configured {} builds (took {:?}).",
@@ -296,6 +304,8 @@ impl Generator {
         let build_dir = self.build_dir.clone();
         let result = GenerateResult::new(self, builds, treestate);
         result.to_cache(&build_dir)?;
+        #[cfg(kaspar030_laze_verif)]
+        crate::verif_oracle::fault("after_cache_written");
         Ok(result)
     }
 }
